@@ -17,19 +17,20 @@
 
     [switch_stable e]: no pre-set / default dictionary (WithOptions, dataset options) and no Map
     key inside [e] mentions the LABREA section — then the section the caller passed is the one
-    every node sees.  It is needed: see [C16_option_switch_needs_stable].
+    every node sees.  It is needed: see [C16_option_switch_without_stable_refuted].
     [kstatic e] (TraceProofs): the fingerprint of [e] is computed without evaluating
     sub-expressions (constant / plain-Option dispatch).
 
     NOT proved here (named in the claim): that a run with caches ON returns the values of the run
     with caches OFF — that is the transparency theorem of C01/C02 and holds only on clean
-    dictionaries (known findings D1/D3/D4/D9/D19/D21); here only the single cache site
-    ([C16_cached_site_value_partial]).  The INFO level of the log request is not in the model
+    dictionaries (known findings D1/D3/D4/D9/D19/D21/D24); here the single cache site
+    ([C16_cached_site_value_partial]) and, as a corollary of C01's theorem, covered histories
+    ([C16_cache_switch_value_invariant_history]).  The INFO level of the log request is not in the model
     (checked on the implementation by harness/props/c16.py). *)
 From Coq Require Import List NArith ZArith Bool.
 Import ListNotations.
 From LV Require Import Model.Base Model.Template Model.Eval Model.Derived Model.EvalRun
-  Proofs.TraceProofs Proofs.C16Proofs.
+  Proofs.BaseProofs Proofs.TraceProofs Proofs.CleanProofs Proofs.CacheSim Proofs.C16Proofs.
 
 (** ** 1. Caching disabled (context manager, or either option spelling): every evaluation IS the
     cache-free reference evaluation; stored entries are neither read nor written. *)
@@ -246,6 +247,7 @@ Example C16_switches_on_a_warm_cache :
 Proof.
   vm_compute. repeat split; try (right; repeat split; reflexivity); congruence.
 Qed.
+Print Assumptions C16_switches_on_a_warm_cache.
 
 (** effects switch / per-dataset toggle: the effect callback (function 101) is not called, the
     value is the same; logging switch: request issued, nothing emitted *)
@@ -262,6 +264,7 @@ Example C16_effects_and_logging_switches :
   fst (fst lo) = fst (fst on) /\ fst (fst lc) = fst (fst on) /\
   logging_off_for cfg0 (dataset_expr dsA) (sw A_LOGGING A_DISABLED).
 Proof. vm_compute. repeat split; right; repeat split; reflexivity. Qed.
+Print Assumptions C16_effects_and_logging_switches.
 
 (** the hypotheses of [C16_switch_options_value_invariant_partial] are satisfiable with a real difference *)
 Example C16_frame_hypotheses_satisfiable :
@@ -274,23 +277,138 @@ Example C16_frame_hypotheses_satisfiable :
   cache_off cfgc oA = true /\ cache_off cfg0 o2 = true /\
   reads_no_switch (snd (evalC cfgc (dataset_expr dsA) oA [])) = true /\ oA <> o2.
 Proof. vm_compute. repeat split; congruence. Qed.
+Print Assumptions C16_frame_hypotheses_satisfiable.
 
 (** ... and the guard is needed: an expression that READS a switch key has the switch in its
     value by definition *)
-Example C16_frame_guard_needed :
+Theorem C16_value_invariant_without_read_guard_refuted :
   let cfgc := {| cache_ctx_off := true; log_ctx_off := false |} in
   let e := EOption k_cache_disable (Some (EValue (VJ (JBool false)))) None in
   fst (fst (evalC cfgc e oA [])) <> fst (fst (evalC cfgc e (sw A_CACHE A_DISABLE) [])) /\
   reads_no_switch (snd (evalC cfgc e oA [])) = false.
 Proof. vm_compute. split; congruence. Qed.
+Print Assumptions C16_value_invariant_without_read_guard_refuted.
 
 (** [switch_stable] is needed for the OPTION spellings: a pre-set dictionary that sets
     LABREA.CACHE.DISABLED back to false re-enables the cache below it (the handlers read the
     options of the request, i.e. the overlaid dictionary) — the store is written although the
     caller passed DISABLED = true *)
-Example C16_option_switch_needs_stable :
+Theorem C16_option_switch_without_stable_refuted :
   let e := EWith true [(SName A_LABREA, JObj [(SName A_CACHE, JObj [(SName A_DISABLED, JBool false)])])]
              (ECached (CMem 1) (body 100 [])) in
   cache_opt_off (sw A_CACHE A_DISABLED) = true /\ wf_dict (sw A_CACHE A_DISABLED) = true /\
   switch_stable e = false /\ snd (fst (evalC cfg0 e (sw A_CACHE A_DISABLED) [])) <> [].
 Proof. vm_compute. repeat split; congruence. Qed.
+Print Assumptions C16_option_switch_without_stable_refuted.
+
+(** ** 6. The effects switch DOES change an outcome when an effect raises (finding D24 seen from
+    C16): the guard [switch_stable_eff (effects switch equal on both sides)] of
+    [C16_switch_options_value_invariant_partial] cannot be dropped.  A Computation with body 1
+    and one effect (user function 101) that raises: under {LABREA.EFFECTS.DISABLED: true} the
+    evaluation returns 1, under {} it fails in the effect.  Every other hypothesis of that
+    theorem holds on the witness (well-formed dictionaries that differ only in the LABREA
+    section, caching off on both sides, no LABREA key read, and the expression is stable once
+    the effects switch is equal: [switch_stable_eff true e]). *)
+Definition u_raise16 : N -> list value -> cres :=
+  fun f args => if N.eqb f 101 then CRaise 9 else COk (VT f args).
+Definition e_eff16 : expr := EComp (EValue (VJ (JInt 1))) [EValue (VF 101 [] [])].
+Definition o_eff16 : dict :=
+  [(SName A_LABREA, JObj [(SName A_EFFECTS, JObj [(SName A_DISABLED, JBool true)])])].
+
+Theorem C16_effects_switch_changes_outcome_refuted :
+  exists u e o1 o2,
+    let cfgc := {| cache_ctx_off := true; log_ctx_off := false |} in
+    let ev := eval store mem_find mem_store cfgc u 10 (fun _ _ => true) e in
+    wf_dict o1 = true /\ wf_dict o2 = true /\ eqx o1 o2 /\
+    cache_off cfgc o1 = true /\ cache_off cfgc o2 = true /\
+    reads_no_switch (snd (ev o1 [])) = true /\ reads_no_switch (snd (ev o2 [])) = true /\
+    switch_stable_eff true e = true /\
+    effects_opt_off o1 = true /\ effects_opt_off o2 = false /\
+    switch_stable_eff (Bool.eqb (effects_opt_off o1) (effects_opt_off o2)) e = false /\
+    fst (fst (ev o1 [])) = Ok (VJ (JInt 1)) /\
+    fst (fst (ev o2 [])) = Err (CUser 9) true.
+Proof.
+  exists u_raise16, e_eff16, o_eff16, [].
+  cbv zeta. split; [vm_compute; reflexivity|]. split; [vm_compute; reflexivity|].
+  split.
+  - intros sg Hs. cbn [dget o_eff16].
+    destruct (seg_eqb sg (SName A_LABREA)) eqn:E; [|reflexivity].
+    exfalso. apply Hs. now apply seg_eqb_eq in E.
+  - vm_compute. repeat split; reflexivity.
+Qed.
+Print Assumptions C16_effects_switch_changes_outcome_refuted.
+
+(** ** 7. The CACHE switch and values, at history level (corollary of C01's transparency
+    theorem, Proofs/CacheSim.v): along a covered history ([hist_ok]: every operation's cache
+    sites are registered, in the fragment, and reached by clean dictionaries with one value of
+    the effects switch — the zones of the known findings excluded) run on one long-lived store
+    from the empty store, every operation (evaluate / validate / keys / explain) answers the
+    same whatever the context switches ([labrea.cache.disabled()], [labrea.logging.disabled()])
+    and the ghost oracle: in particular with caching disabled and with caching enabled. *)
+Theorem C16_context_switches_value_invariant_history :
+  forall u fuel cfg1 cfg2 so1 so2 sites esw h,
+    hist_ok u fuel sites esw h ->
+    run_hist u fuel cfg1 so1 h [] = run_hist u fuel cfg2 so2 h [].
+Proof. exact history_independent_of_switches. Qed.
+Print Assumptions C16_context_switches_value_invariant_history.
+
+Theorem C16_cache_switch_value_invariant_history :
+  forall u fuel lg1 lg2 so1 so2 sites esw h,
+    hist_ok u fuel sites esw h ->
+    run_hist u fuel {| cache_ctx_off := true; log_ctx_off := lg1 |} so1 h [] =
+    run_hist u fuel {| cache_ctx_off := false; log_ctx_off := lg2 |} so2 h [].
+Proof.
+  exact (fun u fuel lg1 lg2 so1 so2 =>
+           history_independent_of_switches u fuel {| cache_ctx_off := true; log_ctx_off := lg1 |}
+                                           {| cache_ctx_off := false; log_ctx_off := lg2 |} so1 so2).
+Qed.
+Print Assumptions C16_cache_switch_value_invariant_history.
+
+(** the hypothesis is satisfiable on a history with misses and hits: one cached node (body 100
+    reading K10) evaluated / validated / asked for its keys under two dictionaries; with caching
+    disabled and with caching enabled the answers are the same (and the enabled run does store) *)
+Definition e16 : expr := body 100 [EOption kA None None].
+Definition node16 : expr := ECached (CMem 1) e16.
+Definition sites16 (c : N) : option expr := if N.eqb c 1 then Some e16 else None.
+Definition oB16 : dict := [(SName 10, JInt 8)].
+Definition h16 : list hop :=
+  [HEval node16 oA; HEval node16 oA; HValidate node16 oB16; HEval node16 oB16; HKeys node16 oA; HEval node16 oB16].
+
+Lemma okd16 o : In o [oA; oB16] -> okd u0 10 sites16 false o.
+Proof.
+  intros Ho. split.
+  - cbn in Ho. repeat (destruct Ho as [<-|Ho]; [reflexivity|]). destruct Ho.
+  - split; [cbn in Ho; repeat (destruct Ho as [<-|Ho]; [reflexivity|]); destruct Ho|].
+    split; [cbn in Ho; repeat (destruct Ho as [<-|Ho]; [reflexivity|]); destruct Ho|].
+    intros c b Hs. unfold sites16 in Hs. destruct (N.eqb c 1); [|discriminate]. inversion Hs; subst b.
+    cbn in Ho.
+    repeat (destruct Ho as [<-|Ho]; [
+        split; [vm_compute; reflexivity|];
+        split; [split; [|split]; intros; match goal with H : _ = _ |- _ => vm_compute in H end;
+                try discriminate; match goal with H : _ = _ |- _ => inversion H; subst end; vm_compute; reflexivity
+               |split; [intros v H; vm_compute in H; try discriminate; inversion H; reflexivity
+                       |intros K H; vm_compute in H; try discriminate; inversion H; subst; vm_compute; reflexivity]] |]).
+    destruct Ho.
+Qed.
+
+Lemma scoh16 o : In o [oA; oB16] -> scoh u0 10 sites16 false node16 (eq o).
+Proof.
+  intros Ho. cbn [node16 scoh]. split; [reflexivity|]. split; [|split; [cbn; repeat split; reflexivity|reflexivity]].
+  intros o' <-. now apply okd16.
+Qed.
+
+Example C16_cache_switch_history_hypotheses_satisfiable :
+  hist_ok u0 10 sites16 false h16 /\
+  run_hist u0 10 {| cache_ctx_off := true; log_ctx_off := false |} (fun _ _ => true) h16 [] =
+    [OEval (Ok (VT 100 [VJ (JInt 7)])); OEval (Ok (VT 100 [VJ (JInt 7)])); OValidate (Ok tt);
+     OEval (Ok (VT 100 [VJ (JInt 8)])); OKeys (Ok [kA]); OEval (Ok (VT 100 [VJ (JInt 8)]))] /\
+  run_hist u0 10 cfg0 (fun _ _ => true) h16 [] =
+    run_hist u0 10 {| cache_ctx_off := true; log_ctx_off := false |} (fun _ _ => true) h16 [].
+Proof.
+  split; [|split; vm_compute; reflexivity].
+  intros p Hp. unfold h16 in Hp.
+  repeat (destruct Hp as [<-|Hp]; [apply scoh16; cbn; tauto|]). destruct Hp.
+Qed.
+Print Assumptions okd16.
+Print Assumptions scoh16.
+Print Assumptions C16_cache_switch_history_hypotheses_satisfiable.
